@@ -964,7 +964,7 @@ func callerContextHonoured(p *Prog) (out []gFinding) {
 // classifies every other status by its number. The worker's handler therefore writes the marshalled
 // workerrpc.Response under status 200: no WriteHeader with another value can precede that write.
 func workerAnswersInBody(p *Prog) (out []gFinding) {
-	cl := p.Func("token/worker.(*WorkerToken).doOnce")
+	cl := workerAttemptFn(p)
 	sv := p.Func("cmdline/workercmd.(*handler).ServeHTTP")
 	if cl == nil || sv == nil {
 		return []gFinding{{Key: "worker doOnce / handler.ServeHTTP", Pos: "-", OK: false, Detail: "function not found"}}
@@ -2787,7 +2787,7 @@ type applySite struct {
 
 func (p *Prog) applyInPlaceSite() *applySite {
 	ap := p.Func("lib/binpatch.(*PatchSet).Apply")
-	rw := p.Func("lib/binpatch.(*PatchSet).applyRewrite")
+	rw := binpatchRewriteFn(p)
 	if ap == nil {
 		return nil
 	}
